@@ -506,6 +506,8 @@ def per_entry(ctx, F):
         ctx.check(no_purge, R, fn["fn"], f"{nm}:under-no-purge-class", "true only if no Purged(class) in the modlist",
                   f"the {nm} result is reachable when the modlist purges `class` (path condition {render(lits)[:4]}): the class attribute — and with it every protection keyed on classes — could be purged",
                   file=fn["file"], line=s.get("line"))
+        if not ({"pres", "rem"} <= set(got)):
+            continue        # the subset-test violation above is the root cause; the requested sets cannot be identified
         some_change = False
         for conj in blocked(conds):
             if conj and all(pol and leaf[1] == "expr" and unwrap(leaf[2]).get("e") == "mcall" and unwrap(leaf[2])["name"] == "is_empty" for (pol, leaf) in conj):
@@ -518,6 +520,8 @@ def per_entry(ctx, F):
     # (c) classification of the requested sets
     want = {"pres": {"Present", "Set", "Assert"}, "rem": {"Removed", "Purged", "Set"}}
     for f, need in want.items():
+        if f not in got:
+            continue        # reported as Allow:subset-test:<f>
         loc = got.get(f)
         got_init = b.lookup(loc) if loc is not None else None
         tbl = None
@@ -540,6 +544,8 @@ def per_entry(ctx, F):
                     if c.get("e") == "mcall" and c["name"] == "extend" and local_id(c["recv"]) is not None and guarded:
                         ext.setdefault(local_id(c["recv"]), set()).update(vs)
     for f, need in (("pres_cls", {"Present", "Set"}), ("rem_cls", {"Removed", "Set"})):
+        if f not in got:
+            continue
         loc = got.get(f)
         have = ext.get(loc, set())
         ctx.check(need <= have, "K4-classify", fn["fn"], f"requested-{f}:{'|'.join(sorted(need))}(class)", f"requested {f} classes collected from {sorted(have)}",
